@@ -95,6 +95,7 @@ type Call struct {
 	Names  []string
 	DAG    [][]string
 	UseTag bool
+	HasOptFn bool // the request injects the function value ofn
 	HasOpt bool
 	PresetTag  bool // W1: the call reuses the previous call's Stag object as it was left
 	TagAtEntry bool // the tag was already raised when the call began
